@@ -354,6 +354,8 @@ class Executor(ExprMixin, StmtMixin, LoopMixin):
     def call_method(self, recv: Val, name, args, kwargs, st, node):
         from . import models
 
+        recv = self.deopt(recv, st, node)
+
         if isinstance(recv.ty, T.Ref):
             cs = self.class_of(recv.ty)
             m = self.find_method(cs, name)
@@ -391,7 +393,7 @@ class Executor(ExprMixin, StmtMixin, LoopMixin):
                 missing[n] = defaults[n]
         return bound, missing
 
-    def inline(self, clo: Closure, args, kwargs, st, node):
+    def inline(self, clo: Closure, args, kwargs, st, node, ret_ty=None):
         """Execute a nested def/lambda inline; must be heap-pure; paths merged by ite."""
         fdef = clo.node
         bound, missing = self.bind_args(fdef, args, kwargs, node)
@@ -423,6 +425,8 @@ class Executor(ExprMixin, StmtMixin, LoopMixin):
                 raise Unsupported("closure with heap effects", node)
         for s2, v in reversed(rets):
             c = z_and(*s2.pc[base:])
+            if ret_ty is not None:
+                v = coerce(v, ret_ty)
             res = v if res is None else ops.ite(c, v, res)
         return res
 
@@ -433,6 +437,20 @@ class Executor(ExprMixin, StmtMixin, LoopMixin):
     def apply_spec(self, sf, args, st, node):
         if len(args) != len(sf.params):
             raise ContractMisfit(f"spec function {sf.name} arity")
+        if not sf.opaque and not spec_is_recursive(sf):
+            # non-recursive spec functions are macros: inlined at the use site
+            from .solve import _spec_fdef
+            import sys
+
+            args = [coerce(a if isinstance(t, T.Opt) else self.deopt(a, st, node), t) for a, (_, t) in zip(args, sf.params)]
+            clo = Closure(_spec_fdef(sf), {})
+            save_mod, save_spec = self.module, self.spec_mode
+            self.module, self.spec_mode = sys.modules[sf.fn.__module__], True
+            try:
+                r = self.inline(clo, args, {}, st, node, ret_ty=sf.ret)
+            finally:
+                self.module, self.spec_mode = save_mod, save_spec
+            return coerce(r, sf.ret)
         zs = [lift(a if isinstance(t, T.Opt) else self.deopt(a, st, node), t) for a, (_, t) in zip(args, sf.params)]
         return Val(sf.ret, self.spec_decl(sf)(*zs))
 
@@ -612,3 +630,33 @@ SPEC_FORMS = {
     "fresh": _f_fresh_ref,
 }
 SPEC_BUILTINS = set()
+
+
+_rec_cache: dict = {}
+
+
+def spec_is_recursive(sf) -> bool:
+    """Does the spec function (transitively) call itself?"""
+    if sf.name in _rec_cache:
+        return _rec_cache[sf.name]
+    from .solve import _spec_fdef
+
+    def callees(f):
+        out = set()
+        for n in ast.walk(_spec_fdef(f)):
+            if isinstance(n, ast.Call) and isinstance(n.func, ast.Name) and n.func.id in api.SPECFNS:
+                out.add(n.func.id)
+        return out
+
+    seen, todo = set(), [sf.name]
+    rec = False
+    while todo:
+        cur = todo.pop()
+        for c in callees(api.SPECFNS[cur]):
+            if c == sf.name:
+                rec = True
+            if c not in seen:
+                seen.add(c)
+                todo.append(c)
+    _rec_cache[sf.name] = rec
+    return rec
